@@ -47,6 +47,7 @@ fn main() {
         "C15" => props::c15::run(&env),
         "C16" => props::c16::run(&env),
         "C17" => props::c17::run(&env),
+        "C18" => props::c18::run(&env),
         "C20" => props::c20::run(&env),
         _ => {
             eprintln!("unknown property {prop}");
